@@ -351,6 +351,187 @@ func enumerate(L int, emit func([]hx.T)) {
 	rec(0)
 }
 
+// ---------------------------------------------------------------- hole patterns
+//
+// holeEnumerate: ONE configuration.  k scenes are created (lines 0..k-1), then every sequence
+// of length <= depth over the alphabet { create, end the scene on line j (j < k) } that never
+// ends an empty line is executed, followed by two creations and a request.  Holes of different
+// ages therefore coexist in every possible way: several lines freed, only some refilled, a
+// higher one freed, the next creation must still take the least free number.  The generator
+// tracks which scene sits on which line with the CORRECT rule only to translate "the scene on
+// line j" into a scene id; the expected behaviour comes from the model, not from here.
+func holeEnumerate(k, depth int, emit func([]hx.T)) {
+	const cfg = int64(100)
+	type sym int // -1 = create, j >= 0 = end the scene on line j
+	var rec func(d int, seq []sym, lines map[int]int64, next int64, ops []hx.T)
+	least := func(lines map[int]int64) int {
+		for n := 0; ; n++ {
+			if _, used := lines[n]; !used {
+				return n
+			}
+		}
+	}
+	rec = func(d int, seq []sym, lines map[int]int64, next int64, ops []hx.T) {
+		if len(seq) > 0 {
+			tail := append(append([]hx.T{}, ops...),
+				hx.C("OCreate", cfg, next, int64(1)), hx.C("OCreate", cfg, next+1, int64(2)), hx.C("OReq", cfg))
+			emit(tail)
+		}
+		if d == 0 {
+			return
+		}
+		for a := -1; a < k; a++ {
+			nl := map[int]int64{}
+			for x, y := range lines {
+				nl[x] = y
+			}
+			if a < 0 {
+				nl[least(nl)] = next
+				rec(d-1, append(seq, sym(a)), nl, next+1, append(append([]hx.T{}, ops...), hx.C("OCreate", cfg, next, int64(1+next%2))))
+				continue
+			}
+			sid, ok := nl[a]
+			if !ok {
+				continue // nothing on that line: ending an unknown scene is covered elsewhere
+			}
+			delete(nl, a)
+			rec(d-1, append(seq, sym(a)), nl, next, append(append([]hx.T{}, ops...), hx.C("OEnd", sid)))
+		}
+	}
+	lines := map[int]int64{}
+	var ops []hx.T
+	for i := 0; i < k; i++ {
+		lines[i] = int64(i + 1)
+		ops = append(ops, hx.C("OCreate", cfg, int64(i+1), int64(1+i%2)))
+	}
+	rec(depth, nil, lines, int64(k+1), ops)
+}
+
+// genHoles: 1-3 configurations with 3-6 scenes each on 2-3 services; then a long random
+// interleaving of ends (any live scene, biased to one configuration at a time so that several
+// of ITS lines are free together), creations into the configurations that have holes, service
+// losses and four-strike expiries that free many lines at once followed by creations, and
+// requests.  Executed on the real manager while generating (the live set is read from the dump).
+func genHoles(cfg *hx.Config, maxLen int) ([]hx.T, []any, bool, []string) {
+	rng := cfg.Rng
+	r := newRunner()
+	defer r.close()
+	tags := map[string]bool{"holes": true}
+	var ops []hx.T
+	var obs []any
+	run := func(o hx.T) {
+		b, _ := r.do(o)
+		ops = append(ops, o)
+		obs = append(obs, b)
+	}
+	ncfg := 1 + rng.Intn(3)
+	cfgs := []int64{100, 101, 102}[:ncfg]
+	nsvc := int64(2 + rng.Intn(2))
+	next := int64(1)
+	for s := int64(1); s <= nsvc; s++ {
+		run(hx.C("ORefresh", s, int64(rng.Intn(4))))
+	}
+	create := func(c int64) {
+		run(hx.C("OCreate", c, next, 1+rng.Int63n(nsvc)))
+		next++
+	}
+	for _, c := range cfgs {
+		for i := 3 + rng.Intn(4); i > 0; i-- {
+			create(c)
+		}
+	}
+	focus := hx.Pick(rng, cfgs)
+	liveOf := func(c int64) []liveScene {
+		var l []liveScene
+		for _, x := range r.live {
+			if x.cfg == c {
+				l = append(l, x)
+			}
+		}
+		return l
+	}
+	n := len(ops) + 6 + rng.Intn(maxLen)
+	for len(ops) < n {
+		if rng.Intn(12) == 0 {
+			focus = hx.Pick(rng, cfgs)
+		}
+		c := focus
+		if rng.Intn(5) == 0 {
+			c = hx.Pick(rng, cfgs)
+		}
+		switch p := rng.Intn(100); {
+		case p < 45: // end a scene of the configuration in focus: low, high or any line
+			l := liveOf(c)
+			if len(l) == 0 {
+				create(c)
+				break
+			}
+			sort.Slice(l, func(i, j int) bool { return l[i].line < l[j].line })
+			var x liveScene
+			switch rng.Intn(4) {
+			case 0:
+				x = l[0]
+			case 1:
+				x = l[len(l)-1]
+			default:
+				x = l[rng.Intn(len(l))]
+			}
+			run(hx.C("OEnd", x.sid))
+		case p < 80:
+			create(c)
+		case p < 86: // a burst: free several lines, refill some
+			l := liveOf(c)
+			rng.Shuffle(len(l), func(i, j int) { l[i], l[j] = l[j], l[i] })
+			k := 0
+			if len(l) > 0 {
+				k = 1 + rng.Intn(len(l))
+			}
+			for _, x := range l[:k] {
+				run(hx.C("OEnd", x.sid))
+			}
+			for i := rng.Intn(k + 1); i > 0; i-- {
+				create(c)
+			}
+			tags["burst"] = true
+		case p < 92: // a service disappears: many lines of several configurations are freed at once
+			svc := 1 + rng.Int63n(nsvc)
+			if rng.Intn(2) == 0 {
+				run(hx.C("OLost", svc))
+				tags["loss-frees-many"] = true
+			} else {
+				for k := 0; k < 4; k++ {
+					run(hx.C("OAdvance", int64(3000)))
+					for s := int64(1); s <= nsvc; s++ {
+						if s != svc {
+							run(hx.C("ORefresh", s, int64(rng.Intn(4))))
+						}
+					}
+					run(hx.C("OTick"))
+				}
+				tags["expiry-frees-many"] = true
+			}
+			for i := 1 + rng.Intn(3); i > 0; i-- {
+				create(hx.Pick(rng, cfgs))
+			}
+			if rng.Intn(2) == 0 {
+				run(hx.C("ORefresh", svc, int64(0)))
+			}
+		default:
+			run(hx.C("OReq", c))
+		}
+	}
+	for _, c := range cfgs { // every configuration must still hand out its least free line
+		create(c)
+		create(c)
+	}
+	var tl []string
+	for t := range tags {
+		tl = append(tl, t)
+	}
+	sort.Strings(tl)
+	return ops, obs, r.nontrivial(), tl
+}
+
 func Run(cfg *hx.Config) error {
 	logger.SetLogLevel(logrus.PanicLevel)
 	logger.GetLogProxy("default").SetLogLevel(logrus.PanicLevel)
@@ -370,6 +551,8 @@ func Run(cfg *hx.Config) error {
 		}
 		return nil
 	}
+	var buf []hx.Case
+	emit := func(c hx.Case) { buf = append(buf, c) }
 	depth := 3
 	if cfg.Tier == "thorough" {
 		depth = 4
@@ -377,16 +560,41 @@ func Run(cfg *hx.Config) error {
 	for L := 0; L <= depth; L++ {
 		enumerate(L, func(ops []hx.T) {
 			obs, nt := Exec(ops)
-			cfg.Emit(hx.Case{Kind: fmt.Sprintf("exhaustive-%d", L), Ops: ops, Obs: obs, Nontrivial: nt})
+			emit(hx.Case{Kind: fmt.Sprintf("exhaustive-%d", L), Ops: ops, Obs: obs, Nontrivial: nt})
+		})
+	}
+	// hole patterns in one configuration, exhaustively: k initial scenes, all end/create
+	// interleavings up to the depth
+	hd := map[int]int{2: 5, 3: 5, 4: 4}
+	if cfg.Tier == "thorough" {
+		hd = map[int]int{2: 8, 3: 7, 4: 6}
+	}
+	for k := 2; k <= 4; k++ {
+		holeEnumerate(k, hd[k], func(ops []hx.T) {
+			obs, nt := Exec(ops)
+			emit(hx.Case{Kind: fmt.Sprintf("holes-%d", k), Ops: ops, Obs: obs, Nontrivial: nt, Tags: []string{"holes"}})
 		})
 	}
 	for i := 0; i < cfg.N; i++ {
+		if i%4 == 1 {
+			ops, obs, nt, tags := genHoles(cfg, 8+6*(i%5))
+			emit(hx.Case{Kind: "random-holes", Ops: ops, Obs: obs, Nontrivial: nt, Tags: tags})
+			continue
+		}
 		maxLen := 12
 		if i%4 == 3 {
 			maxLen = 45
 		}
 		ops, obs, nt, tags := gen(cfg, maxLen)
-		cfg.Emit(hx.Case{Kind: "random", Ops: ops, Obs: obs, Nontrivial: nt, Tags: tags})
+		emit(hx.Case{Kind: "random", Ops: ops, Obs: obs, Nontrivial: nt, Tags: tags})
+	}
+	// bin/check.py evaluates the cases in shards of 500, in parallel: deal the streams out evenly
+	// so that no shard gets all the long histories
+	shards := (len(buf) + 499) / 500
+	for k := 0; k < shards; k++ {
+		for j := k; j < len(buf); j += shards {
+			cfg.Emit(buf[j])
+		}
 	}
 	return nil
 }
